@@ -343,6 +343,66 @@ theorem historyCached_spec (hist : List (List Access)) :
     simp only [Impl.historyCached, List.map_cons]
     rw [r, r2, contents_ext x hp]
 
+/-! ## Preloads read off an inversion (what `preloads.py set_*` and user code do) -/
+
+/-- a `Preloads` object whose arrays ARE the cached arrays of an inversion object (no copies), as
+    `Preloads.set_operated_mapping_matrix_with_preloads`, `set_curvature_matrix`,
+    `set_regularization_matrix_and_term` store them -/
+def preloadsOf (st : Impl.CState α) : Preloads α :=
+  { operatedMappingMatrix := st.cache Access.operatedMappingMatrix,
+    curvatureMatrix := st.cache Access.curvatureMatrix,
+    regularizationMatrix := st.cache Access.regularizationMatrix }
+
+theorem preloadsOf_consistent (w : Bool) (h0 : Heap α) (st : Impl.CState α)
+    (hi : CInv c E ({} : Preloads α) w h0 st) :
+    (preloadsOf st).Below st.heap.size
+    ∧ Consistent c E w (contents st.heap (preloadsOf st)) := by
+  have hc0 : contents h0 ({} : Preloads α) = ({} : Slots α) := rfl
+  constructor
+  · unfold Preloads.Below
+    simp only [SlotsOf.arrays, preloadsOf, List.all_cons, List.all_nil, Bool.and_true,
+      Option.all_none, Bool.true_and, Bool.and_eq_true]
+    refine ⟨?_, ?_, ?_⟩
+    · cases hq : st.cache Access.operatedMappingMatrix with
+      | none => rfl
+      | some r => simpa using (hi.hit _ r hq).1
+    · cases hq : st.cache Access.curvatureMatrix with
+      | none => rfl
+      | some r => simpa using (hi.hit _ r hq).1
+    · cases hq : st.cache Access.regularizationMatrix with
+      | none => rfl
+      | some r => simpa using (hi.hit _ r hq).1
+  · constructor
+    · intro v hv; simp [contents, SlotsOf.map, preloadsOf] at hv
+    · intro v hv
+      simp only [contents, SlotsOf.map, preloadsOf, Option.map_eq_some_iff] at hv
+      obtain ⟨r, hr, rfl⟩ := hv
+      rw [(hi.hit _ r hr).2, hc0]
+      rfl
+    · intro v hv; simp [contents, SlotsOf.map, preloadsOf] at hv
+    · intro v hv; simp [contents, SlotsOf.map, preloadsOf] at hv
+    · intro v hv; simp [contents, SlotsOf.map, preloadsOf] at hv
+    · intro v hv
+      simp only [contents, SlotsOf.map, preloadsOf, Option.map_eq_some_iff] at hv
+      obtain ⟨r, hr, rfl⟩ := hv
+      rw [(hi.hit _ r hr).2, hc0]
+      rfl
+    · intro v hv; simp [contents, SlotsOf.map, preloadsOf] at hv
+    · intro v hv; simp [contents, SlotsOf.map, preloadsOf] at hv
+    · intro v hv
+      simp only [contents, SlotsOf.map, preloadsOf, Option.map_eq_some_iff] at hv
+      obtain ⟨r, hr, rfl⟩ := hv
+      rw [(hi.hit _ r hr).2, hc0]
+      rfl
+    · intro v hv; simp [contents, SlotsOf.map, preloadsOf] at hv
+
+/-- the state of a preload-free inversion object after any reads satisfies the invariant -/
+theorem cinv_after_reads (h0 : Heap α) (accs : List Access) :
+    CInv c E ({} : Preloads α) (useWTilde c none) h0
+      (Impl.readAllCached c E Policy.repaired true (useWTilde c none) {} accs
+        { heap := h0, cache := fun _ => none }).1 :=
+  (readAllCached_spec c E {} _ h0 (belowEmpty _ _) accs _ (cinv_init c E {} _ h0)).1
+
 end
 
 end Model.Preload
